@@ -40,6 +40,13 @@ package hamt
 
 //@ spec def wfData(nd *data._UnixFSData) bool = nd != nil && nd.Fanout.m == 2 && nd.Data.m == 2 && nd.Fanout.v.x > 0 && (nd.Fanout.v.x & (nd.Fanout.v.x - 1)) == 0
 //@ spec def shardFanout(n *hamt._UnixFSHAMTShard) int64 = n.data.Fanout.v.x
+// Number of entries of a sharded directory (C02 "Length"): a link whose name is longer than the
+// bucket prefix is one entry; a link whose name is just the prefix stands for a sub-shard and
+// counts entriesBelow(its hash), the entry count of (any reification of) the block it names.
+//@ spec func entriesBelow(Ref) int64
+//@ spec def shardEntries(s []github.com/ipld/go-codec-dagpb._PBLink, pad int, n int) int64 = sum(k, 0, n, ite(len(s[k].Name.v.x) > pad, int64(1), entriesBelow(s[k].Hash.x)))
+//@ spec def entriesOf(n *hamt._UnixFSHAMTShard) int64 = shardEntries(n._substrate.Links.x, padLen(n.data), len(n._substrate.Links.x))
+//@ typeinv hamt._UnixFSHAMTShard: length-memo-is-the-entry-count: self.cachedLength == -1 || self.cachedLength == entriesOf(self)
 //@ typeinv hamt._UnixFSHAMTShard: wfData(self.data) && 8 <= shardFanout(self) && shardFanout(self) <= 1024 && len(self.bitfield) * 8 == shardFanout(self) && self.shardCache != nil && self._substrate != nil
 //@ typeinv hamt._UnixFSShardedDir__ListItr: 0 <= self.maxPadLen && self.nd != nil && self._substrate != nil
 //@ typeinv hamt.hashBits: 0 <= self.consumed && self.consumed <= len(self.b) * 8 && 0 <= len(self.b) && len(self.b) <= (1 << 56)
@@ -60,7 +67,8 @@ package hamt
 //@ func hamt.maxPadLength
 //@ requires wfData(nd)
 //@ ensures 0 <= result
-//@ assigns nothing
+//@ pure
+//@ alias padLen int
 
 //@ func hamt.bitField
 //@ requires wfData(nd)
@@ -100,6 +108,8 @@ package hamt
 //@ props C05 C12 C13
 
 //@ func (*hamt._UnixFSHAMTShard).loadChild
+//@ ensures child-is-a-reification-of-the-linked-block: err == nil ==> entriesOf(result) == entriesBelow(pbLink.Hash.x)
+//@ assumed child-is-a-reification-of-the-linked-block
 //@ ensures last-load-is-the-result: lastLoad == old(lastLoad) || (err == nil && lastLoad == result)
 //@ ensures walked-is-monotone: forall w Ref :: old(walked(w)) ==> walked(w)
 //@ inst walked-is-monotone: w: w
@@ -114,8 +124,17 @@ package hamt
 // The length memo is either the "not yet counted" sentinel -1 or a count; a counted shard is never
 // walked again (this is what keeps Length()/preload linear on DAGs with shared sub-shards).
 //@ props C06 C13 C20
+//@ func (*hamt._UnixFSHAMTShard).FieldLinks
+//@ prop C02
+//@ ensures the-substrates-own-links: result != nil && result.x == n._substrate.Links.x
+//@ assigns nothing
+
 //@ func (*hamt._UnixFSHAMTShard).length
-//@ prop C20
+//@ prop C02 C20
+//@ ensures counts-every-entry-below: err == nil ==> result == entriesOf(n)
+//@ loop 0 invariant iterates-its-own-links: itr.n.x == n._substrate.Links.x && 0 <= itr.idx && itr.idx <= len(itr.n.x)
+//@ loop 0 invariant pad-is-the-prefix-width: maxPadLen == padLen(n.data)
+//@ loop 0 invariant running-count: total == shardEntries(n._substrate.Links.x, padLen(n.data), itr.idx)
 //@ at return ghost walked(n) = walked(n) || err == nil
 //@ ensures walked-when-done: err == nil ==> walked(n)
 //@ ensures depth-first: err == nil ==> (lastLoad == old(lastLoad) || walked(lastLoad))
